@@ -169,6 +169,13 @@ func (m *tfM) render(t Term, e *strEnv) string {
 	case TAssert:
 		return m.render(x.X, e)
 	case TProj:
+		if as, ok := x.X.(TAssert); ok && x.K == 0 {
+			if g := m.getterAssert(TProj{as, 1}); g != "" {
+				if call, ok := as.X.(TCall); ok && len(call.Args) == 1 {
+					return "self." + g + "(" + m.render(call.Args[0], e) + ")" // the asserted result of Get: what the typed getter returns
+				}
+			}
+		}
 		return m.render(x.X, e) + "#" + itoa(x.K)
 	case TConv:
 		return m.render(x.X, e)
@@ -186,6 +193,30 @@ func (m *tfM) render(t Term, e *strEnv) string {
 		return x.Obj.Name() + "′"
 	}
 	return m.c.termStr(t)
+}
+
+// getterAssert: t is the ok flag of `self.Get(k).(Object)` / `.(List)`: returns the name of the typed getter it spells out.
+func (m *tfM) getterAssert(t Term) string {
+	pr, ok := t.(TProj)
+	if !ok || pr.K != 1 {
+		return ""
+	}
+	as, ok := pr.X.(TAssert)
+	if !ok {
+		return ""
+	}
+	nm, args, ok := m.v.selfCall(as.X)
+	if !ok || nm != "Get" || len(args) != 1 {
+		return ""
+	}
+	ct := m.c.Inv().ContByIface(as.To)
+	if ct == nil {
+		return ""
+	}
+	if ct.IsList {
+		return "GetList"
+	}
+	return "GetObject"
 }
 
 func (m *tfM) isTypeConst(t Term) bool {
@@ -259,6 +290,17 @@ func (m *tfM) observe(s string, n int64) ([]tfObs, string) {
 			for _, st := range steps {
 				switch st.Kind {
 				case "cond":
+					if m.getterAssert(st.Cond.T) != "" {
+						// a typed getter's body spelled out: v, ok := self.Get(k).(Object); if !ok { panic }. The failing branch is the
+						// getter's own panic (inside the call in the other spelling); the passing one decides nothing
+						if !st.Cond.Truth && p.End == "panic" {
+							feasible = false
+							return false
+						}
+						if st.Cond.Truth {
+							continue
+						}
+					}
 					if m.contentDependent(st.Cond.T) {
 						obs.Oracles = append(obs.Oracles, m.oracleOf(st.Cond, e))
 						continue
